@@ -106,14 +106,22 @@ def concretise(call, rng):
     raise ValueError(name)
 
 
+PREF_GRID = [("knownStr:valid", ["SpeechStyle", "Verbosity", "BrailleCode", "TTS", "NavMode", "BrailleNavHighlight", "DecimalSeparator", "CheckRuleFiles"],
+              ["SimpleSpeak", "Verbose", "UEB", "SSML", "Character", "All", ",", "None"]),
+             ("knownBool:bool", ["Bookmark", "Overview", "AutoZoomOut", "CapitalLetters_Beep"], ["true", "FALSE"]),
+             ("knownNum:num", ["Pitch", "Rate", "Volume", "MathRate", "PauseFactor", "CapitalLetters_Pitch"], ["100", "0"]),
+             ("lang:good", ["Language"], ["en", "es", "Auto", "xx"])]
 PREFIXES = [
     ("none", []),
+    # a getter before any set_rules_dir fails - and leaves a session whose preferences are only half there (32cc0a3)
+    ("failed-start", [{"op": "overview"}]),
     ("rules", [{"op": "set_rules_dir", "dir": "$RULES"}]),
     ("expr", [{"op": "set_rules_dir", "dir": "$RULES"}, {"op": "set_mathml", "mathml": VALID[0]}]),
     ("nav", [{"op": "set_rules_dir", "dir": "$RULES"}, {"op": "set_mathml", "mathml": VALID[1]}, {"op": "nav_cmd", "cmd": "ZoomIn"},
              {"op": "nav_cmd", "cmd": "MoveNext"}]),
 ]
-PREFIX_CALLS = {"set_rules_dir": ("set_rules_dir", "good"), "set_mathml": ("set_mathml", "valid"), "nav_cmd": ("do_navigate_command", "move")}
+PREFIX_CALLS = {"set_rules_dir": ("set_rules_dir", "good"), "set_mathml": ("set_mathml", "valid"), "nav_cmd": ("do_navigate_command", "move"),
+                "overview": ("get_overview_text", "-")}
 RECOVERY = [{"op": "set_rules_dir", "dir": "$RULES"}, {"op": "def_names", "names": None}, {"op": "set_mathml", "mathml": PROBE}, {"op": "prefs_hash"},
             {"op": "speech"}, {"op": "braille", "id": ""}, {"op": "overview"}, {"op": "nav_cmd", "cmd": "ZoomIn"}]
 
@@ -122,9 +130,14 @@ def build_script(beh, prefix, rng, sid):
     pname, pops = prefix
     ops = [dict(o) for o in pops]
     meta = [("prefix", PREFIX_CALLS[o["op"]]) for o in pops]
+    said = {}
     for call in beh:
         call = (call[0], tuple(call[1]) if isinstance(call[1], list) else call[1])
-        ops.append(concretise(call, rng))
+        # a call of a class that occurred before in this behaviour is, half of the time, the very same call again (the same
+        # preference set to the same value, the same expression, the same node): 'nothing changes' is a path of its own (32cc0a3)
+        o = dict(said[call]) if call in said and rng.random() < 0.5 else concretise(call, rng)
+        said[call] = o
+        ops.append(o)
         meta.append(("call", call))
     for o in RECOVERY:
         o = dict(o)
@@ -156,15 +169,27 @@ def run(tier):
     rng.shuffle(longs)
     singles = sorted({json.dumps(p[0]) for p in pairs})
     behaviours = [[json.loads(s)] for s in singles]
+    behaviours += [[json.loads(s)] * 2 for s in singles] + [[json.loads(s)] * 3 for s in singles if "set_preference" in s]          # every call repeated
     if tier == "quick":
         behaviours += rng.sample(pairs, 900) + longs[:250]
     else:
         behaviours += pairs + longs[:6000]
     scripts = []
     for bi, beh in enumerate(behaviours):
-        prefixes = PREFIXES if (tier == "thorough" or len(beh) == 1) else [PREFIXES[bi % 4]]
+        prefixes = PREFIXES if (tier == "thorough" or len(beh) == 1 or bi < 3 * len(singles)) else [PREFIXES[bi % len(PREFIXES)]]
         for pf in prefixes:
             scripts.append(build_script(beh, pf, random.Random(C.seed() * 17 + bi), f"b{bi}:{pf[0]}"))
+    # every (preference, value) of the classes of Api.tla set twice in a row, in every session state: the second call changes nothing
+    for cls, names, values in PREF_GRID:
+        for n in names:
+            for v in values:
+                for pf in PREFIXES:
+                    sc = build_script([], pf, rng, f"pref2:{n}={v}:{pf[0]}")
+                    at = len(pf[1])
+                    for _ in range(2):
+                        sc["ops"].insert(at, {"op": "set_pref", "name": n, "value": v})
+                        sc["meta"].insert(at, ("call", ("set_preference", cls)))
+                    scripts.append(sc)
     # fresh reference sessions for the recovery probe under the default preferences
     scripts.append(build_script([], PREFIXES[0], rng, "fresh"))
     results = C.run_mcv([{"id": s["id"], "ops": s["ops"]} for s in scripts], wd, timeout_ms=20000, stack_mb=8)
